@@ -107,6 +107,280 @@ func ReportAllocWrap(w *World, r *Report, names ...string) {
 	}
 }
 
+// nonNegByConstruction: v cannot be negative whatever the inputs: constants >= 0, len/cap, bit counts, masked or
+// unsigned-shifted values, and sums, products, quotients by positive constants and right shifts of such values
+// (wrap-around of a sum of two lengths is not considered: it needs more than 2^62 elements).
+func nonNegByConstruction(v ssa.Value, depth int) bool {
+	return nonNeg1(v, depth, map[*ssa.Phi]bool{})
+}
+
+func nonNeg1(v ssa.Value, depth int, inProgress map[*ssa.Phi]bool) bool {
+	nonNegByConstruction := func(v ssa.Value, depth int) bool { return nonNeg1(v, depth, inProgress) }
+	if v == nil || depth > 10 {
+		return false
+	}
+	if k, ok := constInt64(v); ok {
+		return k >= 0
+	}
+	switch x := v.(type) {
+	case *ssa.Call:
+		if b, ok := x.Common().Value.(*ssa.Builtin); ok {
+			switch b.Name() {
+			case "len", "cap":
+				return true
+			case "min":
+				for _, a := range x.Common().Args {
+					if !nonNegByConstruction(a, depth+1) {
+						return false
+					}
+				}
+				return true
+			case "max":
+				for _, a := range x.Common().Args {
+					if nonNegByConstruction(a, depth+1) {
+						return true
+					}
+				}
+			}
+		}
+		if bitsCountWidth(calleeName(x.Common())) > 0 {
+			return true
+		}
+	case *ssa.Convert:
+		// widening or same-width conversion of a non-negative value (narrowing is R-IDXWIDTH's business)
+		return isIntType(x.X.Type()) && nonNegByConstruction(x.X, depth+1)
+	case *ssa.BinOp:
+		switch x.Op {
+		case token.ADD, token.MUL:
+			return nonNegByConstruction(x.X, depth+1) && nonNegByConstruction(x.Y, depth+1)
+		case token.QUO, token.SHR:
+			if k, ok := constInt64(stripConv(x.Y)); ok && k > 0 || x.Op == token.SHR {
+				return nonNegByConstruction(x.X, depth+1)
+			}
+		case token.AND:
+			return nonNegByConstruction(x.X, depth+1) || nonNegByConstruction(x.Y, depth+1)
+		case token.REM:
+			return nonNegByConstruction(x.X, depth+1)
+		case token.SHL:
+			if k, ok := constInt64(stripConv(x.Y)); ok && k >= 0 && k <= 8 {
+				return nonNegByConstruction(x.X, depth+1)
+			}
+		}
+	case *ssa.Phi:
+		// a loop-carried accumulator (0, then acc + len(..)): assumed non-negative while its own edges are checked
+		if inProgress[x] {
+			return true
+		}
+		inProgress[x] = true
+		defer delete(inProgress, x)
+		for _, e := range x.Edges {
+			if e != ssa.Value(x) && !nonNegByConstruction(e, depth+1) {
+				return false
+			}
+		}
+		return true
+	}
+	return false
+}
+
+// allocSignConfirmed: functions whose allocation sizes derive from position/size PARAMETERS, which are non-negative
+// in the domain of their property (confirmed by reading; one line of reason each).
+var allocSignConfirmed = map[string]string{
+	"bitmap.Join":                "len(subs)*size: size is the element width 1..64 (C14's domain)",
+	"bitmap.NewBuilder":          "n>>6: n is a number of bits to reserve",
+	"bitmap.NewTailBitmap":       "reclaimThreshold>>6: a positive package-level setting",
+	"bitmap.Of":                  "(n+63)>>6 with n = max(size, last+1, 0): the clamp at 0 is decided by R-ALLOC",
+	"bitmap.Slice":               "((to-from)+63)>>6 with from <= to (C14's domain)",
+	"bitstr.New":                 "bytes spanned by [fromBit, toBit) with fromBit <= toBit inside the string (C09's domain)",
+	"bitword.(*bitWord).FromStr": "len(s)*byteCap: byteCap = 8/width is set by newBW (R-TABLE)",
+	"bitword.(*bitWord).ToStr":   "(len(bs)+byteCap-1)/byteCap: byteCap = 8/width is set by newBW (R-TABLE)",
+	"pbcmpl.ReadHeader":          "fixedSize = binary.Size(header) = 32 (R-LAYOUT, R-SAMECONST)",
+	"sigbits.FirstDiffBits":      "len(keys)-1: C16 and C17 quantify over at least one (two) keys",
+	"sigbits.countPrefixes":      "maxitem = m+1 >= 1 (C16's domain m >= 0)",
+}
+
+// ReportAllocSign (R-ALLOCSIGN): make() panics for a negative length or capacity.
+func ReportAllocSign(w *World, r *Report, names ...string) {
+	r.Rule("R-ALLOCSIGN", "every make() length and capacity in the property's functions is non-negative by construction (lengths, counts, constants and sums / products / quotients by positive constants / right shifts of those), or proven >= 0 on the allocating edge, or derives from the position/size parameters of a function whose domain makes them non-negative (listed, one reason each): a size estimate that can go negative (a wrapped sum with a caller-supplied limit such as MaxInt32, a difference) panics for inputs the function otherwise answers")
+	for _, n := range names {
+		fn := findFunc(w, n)
+		if fn == nil || fn.Blocks == nil {
+			continue
+		}
+		bad := ""
+		nmk := 0
+		fns := append([]*ssa.Function{fn}, fn.AnonFuncs...)
+		for _, f := range fns {
+			fa := w.FA(f)
+			eachInstr(f, func(ins ssa.Instruction) {
+				mk, ok := ins.(*ssa.MakeSlice)
+				if !ok {
+					return
+				}
+				nmk++
+				for _, op := range []ssa.Value{mk.Len, mk.Cap} {
+					if nonNegByConstruction(op, 0) {
+						continue
+					}
+					if bd := fa.BoundsAt(mk.Block(), fa.Lin(op)); bd.HasLo && bd.Lo >= 0 {
+						continue
+					}
+					// a clamp (`hint := n; if hint > K { hint = K }`): every alternative on its own edge
+					okLeaves := true
+					nl := 0
+					for _, leaf := range fa.leavesOf(stripConv(op), mk.Block(), 0) {
+						nl++
+						if nonNegByConstruction(leaf.V, 0) {
+							continue
+						}
+						if b := fa.boundsFrom(leaf.Conds, fa.Lin(leaf.V)); b.HasLo && b.Lo >= 0 {
+							continue
+						}
+						okLeaves = false
+					}
+					if okLeaves && nl > 0 {
+						continue
+					}
+					if _, ok := allocSignConfirmed[n]; ok {
+						continue
+					}
+					bad = fmt.Sprintf("the size %s of the allocation at %s is not non-negative by construction and no guard establishes it: make panics when it is negative", fa.Lin(op), w.InstrPos(mk))
+				}
+			})
+		}
+		r.Check(bad == "", "R-ALLOCSIGN", n, w.Pos(fn.Pos()), bad, fmt.Sprintf("%d allocations, every size non-negative by construction, by a guard, or by the confirmed domain of the function", nmk))
+	}
+}
+
+// domainMax: the largest value in-module functions return on the domain of the properties (confirmed; the contracts
+// of bmtree state the same bound: height <= 30).
+var domainMax = map[string]int64{
+	"github.com/openacid/low/bmtree.Height":     30,
+	"github.com/openacid/low/bmtree.PathHeight": 32,
+	"github.com/openacid/low/bmtree.PathLen":    32,
+}
+
+// upperBound: a value v cannot exceed (ok=false: unknown). Constants, masks, bit counts, the documented range of a
+// few in-module functions, sums and differences of bounded values.
+func upperBound(v ssa.Value, depth int) (int64, bool) {
+	if v == nil || depth > 8 {
+		return 0, false
+	}
+	if k, ok := constInt64(v); ok {
+		return k, true
+	}
+	if _, j, ok := asLowMask(v); ok && j < 62 {
+		return int64(1)<<uint(j) - 1, true
+	}
+	switch x := v.(type) {
+	case *ssa.Convert:
+		if isIntType(x.X.Type()) {
+			return upperBound(x.X, depth+1)
+		}
+	case *ssa.Call:
+		if wd := bitsCountWidth(calleeName(x.Common())); wd > 0 {
+			return wd, true
+		}
+		if f := x.Common().StaticCallee(); f != nil {
+			if m, ok := domainMax[funcFullName(f)]; ok {
+				return m, true
+			}
+		}
+	case *ssa.BinOp:
+		switch x.Op {
+		case token.ADD:
+			a, ok1 := upperBound(x.X, depth+1)
+			b, ok2 := upperBound(x.Y, depth+1)
+			if ok1 && ok2 {
+				return a + b, true
+			}
+		case token.SUB:
+			// hi(a - b) = hi(a) - lo(b); lo(b) is known for constants and for non-negative values (0)
+			a, ok1 := upperBound(x.X, depth+1)
+			if ok1 {
+				if k, ok := constInt64(stripConv(x.Y)); ok {
+					return a - k, true
+				}
+				if nonNegByConstruction(x.Y, 0) {
+					return a, true
+				}
+			}
+		case token.SHR, token.QUO:
+			if a, ok := upperBound(x.X, depth+1); ok && a >= 0 {
+				return a, true
+			}
+		}
+	case *ssa.Phi:
+		var m int64
+		first := true
+		for _, e := range x.Edges {
+			if e == ssa.Value(x) {
+				continue
+			}
+			b, ok := upperBound(e, depth+1)
+			if !ok {
+				return 0, false
+			}
+			if first || b > m {
+				m, first = b, false
+			}
+		}
+		if !first {
+			return m, true
+		}
+	}
+	return 0, false
+}
+
+// ReportArrayBound (R-ARRAYBOUND): a fixed-size table is indexed only below its length.
+func ReportArrayBound(w *World, r *Report, names ...string) {
+	r.Rule("R-ARRAYBOUND", "where the index of a fixed-size array (a package table) has a known upper bound - a constant, a mask, a bit count, the documented range of Height / PathHeight / PathLen, a guard - that bound is below the array length: a table with one entry too few (heights run 0..30: 31 entries) panics for exactly the largest valid input")
+	for _, n := range names {
+		fn := findFunc(w, n)
+		if fn == nil || fn.Blocks == nil {
+			continue
+		}
+		bad := ""
+		nidx, nknown := 0, 0
+		fns := append([]*ssa.Function{fn}, fn.AnonFuncs...)
+		for _, f := range fns {
+			fa := w.FA(f)
+			eachInstr(f, func(ins ssa.Instruction) {
+				var cont, idx ssa.Value
+				switch x := ins.(type) {
+				case *ssa.IndexAddr:
+					cont, idx = x.X, x.Index
+				case *ssa.Index:
+					cont, idx = x.X, x.Index
+				default:
+					return
+				}
+				t := cont.Type().Underlying()
+				if p, ok := t.(*types.Pointer); ok {
+					t = p.Elem().Underlying()
+				}
+				arr, ok := t.(*types.Array)
+				if !ok {
+					return
+				}
+				nidx++
+				hi, known := upperBound(idx, 0)
+				if bd := fa.BoundsAt(ins.Block(), fa.Lin(idx)); bd.HasHi && (!known || bd.Hi < hi) {
+					hi, known = bd.Hi, true
+				}
+				if !known {
+					return
+				}
+				nknown++
+				if hi >= arr.Len() {
+					bad = fmt.Sprintf("the array indexed at %s has %d entries but its index can be as large as %d", w.InstrPos(ins), arr.Len(), hi)
+				}
+			})
+		}
+		r.Check(bad == "", "R-ARRAYBOUND", n, w.Pos(fn.Pos()), bad, fmt.Sprintf("%d fixed-size array accesses, %d with a known index bound, all below the length", nidx, nknown))
+	}
+}
+
 func ReportIdxWidth(w *World, r *Report, names ...string) {
 	r.Rule("R-IDXWIDTH", "no index, slice bound or allocation length is derived from a wider integer (int, int64, len) through a conversion to a narrower integer type: positions beyond 2^31 must not wrap")
 	for _, n := range names {
